@@ -18,7 +18,7 @@ from common import Check, run_impl, standard_proof_step, TRUSTED_COMMON
 
 IMPORTS = "From XV Require Import Base.Str Base.Eqb Model.Bind Model.EventGen Model.DictCodec Model.DictCodecCorr."
 SLICE_MIX = [("F1",), ("F1",), ("F1", "F2"), ("F1", "F2", "F3"), ("F1", "F2", "F3")]
-CHECKS = ["in_proved_slice", "theorem_instance", "negb_ambiguous", "agree_encode", "agree_decode", "oracle_roundtrip", "oracle_strict_json", "is_typed", "in_guard",
+CHECKS = ["agree_json_decode", "in_proved_slice", "theorem_instance", "negb_ambiguous", "agree_encode", "agree_decode", "oracle_roundtrip", "oracle_strict_json", "is_typed", "in_guard",
           "not_class 0", "not_class 1", "not_class 2", "not_class 4", "not_class 5", "not_class 7", "not_class 10", "not_class 12", "roundtrip_ok",
           "not_class 98"]
 CLASS_NAMES = {"not_class 1": "json-key-collision", "not_class 2": "null-decodes-to-default",
@@ -93,6 +93,56 @@ class R:
     t: list[ED] = field(default_factory=list, metadata={"type": "Element", "tokens": True})
     f: Optional[EF] = field(default=None, metadata={"type": "Element"})
 """
+
+
+SPECIAL_TUPLES = """from dataclasses import dataclass, field
+from decimal import Decimal
+from typing import Optional
+from xsdata.models.datatype import XmlDate
+
+@dataclass(frozen=True)
+class K:
+    v: Optional[Decimal] = field(default=None, metadata={"type": "Text"})
+    n: tuple[int, ...] = field(default_factory=tuple, metadata={"type": "Attribute", "tokens": True})
+
+@dataclass(frozen=True)
+class T:
+    class Meta:
+        namespace = "urn:t"
+    a: tuple[int, ...] = field(default_factory=tuple, metadata={"type": "Element"})
+    s: tuple[str, ...] = field(default_factory=tuple, metadata={"type": "Element"})
+    d: tuple[XmlDate, ...] = field(default_factory=tuple, metadata={"type": "Element", "tokens": True})
+    kids: tuple[K, ...] = field(default_factory=tuple, metadata={"type": "Element", "name": "kid"})
+    g: tuple[tuple[int, ...], ...] = field(default_factory=tuple, metadata={"type": "Element", "tokens": True})
+    one: Optional[K] = field(default=None, metadata={"type": "Element"})
+
+@dataclass
+class L:
+    a: list[int] = field(default_factory=list, metadata={"type": "Element"})
+    t: tuple[str, ...] = field(default_factory=tuple, metadata={"type": "Element"})
+"""
+
+
+def tuple_models(r):
+    """immutable models: repeating fields typed tuple[T, ...] (factory = tuple).  JSON text gives arrays,
+    JsonParser has to rebuild tuples through var.factory / var.tokens_factory."""
+    P = lambda t, v: {"__p__": t, "v": v}   # noqa: E731
+    TU = lambda xs: {"__tuple__": xs}       # noqa: E731
+    cases = []
+    for _ in range(5):
+        ints = lambda: TU([P("int", r.randint(-5, 99)) for _ in range(r.choice([0, 1, 2, 3]))])   # noqa: E731
+        kid = lambda: {"__cls__": "K", "fields": {"v": r.choice([None, P("Decimal", "1.50")]), "n": ints()}}   # noqa: E731
+        rec = {"__cls__": "T", "fields": {
+            "a": ints(), "s": TU([P("str", r.choice(["x", "", "a b"])) for _ in range(r.choice([0, 1, 2]))]),
+            "d": TU([P("XmlDate", "2001-02-28") for _ in range(r.choice([0, 1, 2]))]),
+            "kids": TU([kid() for _ in range(r.choice([0, 1, 2]))]),
+            "g": TU([ints() for _ in range(r.choice([0, 1, 2]))]), "one": r.choice([None, kid()])}}
+        rec2 = {"__cls__": "L", "fields": {"a": [P("int", 1)] * r.choice([0, 1, 2]), "t": TU([P("str", "q")] * r.choice([0, 1, 2]))}}
+        for fac in ("dict", "filter_none"):
+            cases.append({"recipe": rec, "root": "T", "factory": fac, "ignore": False})
+            cases.append({"recipe": rec2, "root": "L", "factory": fac, "ignore": False})
+    desc = {"slices": ["special-tuples"], "classes": [{"name": "K"}, {"name": "T"}, {"name": "L"}], "enums": []}
+    return [{"desc": desc, "src": SPECIAL_TUPLES, "classes": ["K", "T", "L"], "enums": [], "cases": cases}]
 
 
 def special_models(r):
@@ -259,7 +309,7 @@ def run(ck: Check):
     for cls, desc, rec, fac in wit:
         models.append({"desc": desc, "src": genmodels.render_source(desc), "classes": [c["name"] for c in desc["classes"]],
                        "enums": [], "cases": [{"recipe": rec, "root": desc["root"], "factory": fac, "ignore": False}], "witness": cls})
-    models += special_models(ck.rng) + best_match_models(ck.rng, ck.n(12, 200))
+    models += special_models(ck.rng) + tuple_models(ck.rng) + best_match_models(ck.rng, ck.n(12, 200))
     models += gen_cases(ck, n_models, per_model)
     res = run_impl("impl_c04.py", {"models": [{k: m[k] for k in ("src", "classes", "enums", "cases")} for m in models]}, timeout=1500)
     unsupported = [(i, m["unsupported"]) for i, m in enumerate(res["models"]) if m["unsupported"]]
@@ -278,6 +328,8 @@ def run(ck: Check):
             ck.failure("corr-encode", "DictCodec.encode and DictEncoder.encode disagree", describe(models, res, mi, ci, f"c04_e{mi}_{ci}"))
         for mi, ci in v["agree_decode"][:3]:
             ck.failure("corr-decode", "DictCodec.decode and DictDecoder.decode disagree", describe(models, res, mi, ci, f"c04_d{mi}_{ci}"))
+        for mi, ci in v["agree_json_decode"][:3]:
+            ck.failure("corr-json-decode", "DictCodec.decode on the JSON form and JsonParser disagree", describe(models, res, mi, ci, f"c04_j{mi}_{ci}"))
         for mi, ci in v["theorem_instance"][:3]:
             ck.failure("theorem-instance", "the model's decode(encode(o)) differs from the promised object inside the proved slice",
                        describe(models, res, mi, ci, f"c04_t{mi}_{ci}"))
